@@ -83,6 +83,7 @@ structure Ed where
   xrep : Bytes := []
   xkwddir : Int := 0
   xgdep : Nat := 0
+  atDepth : Nat := 0          -- `depth` of ec_at: registers executing registers
   regs : Regs := {}
   files : List File := []
   clock : Int := 1000
